@@ -172,7 +172,7 @@ theorem ansi_line_latest_events (c : Config) (hk : c.kind = .ansi) (hq : c.quiet
       ∃ k, (screen ⟨[], []⟩ (evs1 ++ [e])).text = f.text ++ spaces k) ∧
     (e.res.frame = none → e.res.writes ≠ [] →
       ∃ k, (screen ⟨[], []⟩ (evs1 ++ [e])).text = spaces k) := by
-  have := run_ansi_line c hk hq evs1 (init m t0) ops ⟨[], []⟩ e evs2 (by simp [Line.text, init]) hsingle h
+  have := run_ansi_line c hk hq evs1 (init m t0) ops ⟨[], []⟩ e evs2 (by simp [Line.text, init]) (by simp [init]) hsingle h
   refine ⟨this.1, ?_, ?_⟩
   · intro f hf; exact ⟨_, by rw [this.2.1 f hf]; rfl⟩
   · intro hn hw; exact ⟨_, this.2.2 hn hw⟩
@@ -591,5 +591,98 @@ example :
       [(.op (.start none), 64000), (.set (.minInterval 128), 64001), (.op (.advance 5), 64032),
        (.op (.advance 5), 64128)]).map (fun e => e.res.frame.isSome)) = [true, false, false, true] := by
   decide +kernel
+
+/-! ## `set_format` with another number of lines while a frame stands (D39, repaired)
+
+The bar remembers the line count of what it wrote last (`displayedLineCount`); `_overwrite` moves
+back over THAT many lines and erases below the cursor when the format in use now has another line
+count.  `Scr` (Model/Progress.lean) is a terminal with rows that interprets what an ANSI output
+receives from `_overwrite` (`ansiWrites`: CR, cursor up, erase below, the lines). -/
+
+theorem overwrite_is_repaired : Gen.C16.overwriteMovesByDisplayedLineCount = true := rfl
+
+theorem splitNL_ne_nil : ∀ s : Str, splitNL s ≠ []
+  | [] => by simp [splitNL]
+  | c :: r => by
+    unfold splitNL
+    split
+    · simp
+    · split <;> simp
+
+/-- every `_overwrite` (a frame, or the blank lines of `clear()`) records the line count it was
+written with -/
+theorem displayed_line_count_recorded (c : Config) (s : State) (t : Nat) (msg : Str) :
+    (overwrite c s t msg).1.displayedLineCount = some s.formatLineCount :=
+  overwrite_displayedLineCount _ c s t msg
+
+/-- **ANSI output: no residue when the format changes its number of lines.**  Let the bar have
+written something with `n` line breaks (`displayedLineCount = some n`), so that `n` rows of it
+stand above the cursor row, below whatever the application printed before (`rest`); let the format
+in use now have another line count.  Then the next `_overwrite` sends CR, cursor up `n`, erase below
+and the new lines, and on the terminal exactly the lines of the new frame stand under `rest` -
+nothing of the old frame, nothing above the bar touched. -/
+theorem set_format_no_residue (c : Config) (hk : c.kind = .ansi) (hq : c.quiet = false) (s : State)
+    (t : Nat) (msg : Str) (n : Nat) (hd : s.displayedLineCount = some n) (hne : n ≠ s.formatLineCount)
+    (frameAbove rest : List Str) (cur : Str) (col : Nat) (below : List Str) (hn : frameAbove.length = n) :
+    (overwrite c s t msg).2 = ansiWrites n true ((splitNL msg).map (ljust s.lastLen)) ∧
+    (Scr.redraw ⟨frameAbove ++ rest, cur, col, below⟩ n true ((splitNL msg).map (ljust s.lastLen))).rows =
+      rest.reverse ++ (splitNL msg).map (ljust s.lastLen) ∧
+    (Scr.redraw ⟨frameAbove ++ rest, cur, col, below⟩ n true ((splitNL msg).map (ljust s.lastLen))).below = [] := by
+  refine ⟨?_, ?_⟩
+  · unfold overwrite
+    rw [overwrite_is_repaired, overwrite_ansi_writes c s t msg hk hq, hd]
+    simp [hne]
+  · cases hs : splitNL msg with
+    | nil => exact absurd hs (splitNL_ne_nil msg)
+    | cons l ls => exact Scr.redraw_erased n frameAbove rest cur col below hn _ _
+
+/-- **Section output**: the number of content lines the redraw clears goes by the line count of the
+frame standing in the section, not by the format in use now. -/
+theorem set_format_section_clears_standing_frame (c : Config) (hk : c.kind = .section) (s : State)
+    (t : Nat) (msg : Str) (n : Nat) (hd : s.displayedLineCount = some n) :
+    (overwrite c s t msg).2 =
+      (secClear c s (((splitNL msg).map (ljust s.lastLen)).length / c.termWidth + n + 1)).2 ++
+      (secWrite c (secClear c s (((splitNL msg).map (ljust s.lastLen)).length / c.termWidth + n + 1)).1
+        (joinNL ((splitNL msg).map (ljust s.lastLen)))).2 := by
+  unfold overwrite
+  rw [overwrite_is_repaired, overwrite_section_clears c s t msg hk, hd]
+  rfl
+
+/-- the rule before the repair, on the reproduction of D39: a two-line frame (`0/3`, `[>----]`) stands,
+the format in use now has one line; moving by the NEW line count (0) without erasing leaves the
+first line of the old frame on the terminal ... -/
+example : (Scr.redraw ⟨["0/3".toList], "[>----]".toList, 7, []⟩ 0 false ["1/3 done".toList]).rows
+    = ["0/3".toList, "1/3 done".toList] := by decide
+
+/-- ... moving by the line count of the frame standing there and erasing does not -/
+example : (Scr.redraw ⟨["0/3".toList], "[>----]".toList, 7, []⟩ 1 true ["1/3 done".toList]).rows
+    = ["1/3 done".toList] := by decide
+
+/-- the other direction before the repair: a one-line frame stands under a line of the application;
+moving up by the new format's line count (1) overwrites that line (`app output` is gone) -/
+example : (Scr.redraw ⟨["app output".toList], "0/3 one line".toList, 12, []⟩ 1 false
+      ["1/3         ".toList, "second line ".toList]).rows = ["1/3         ".toList, "second line ".toList] := by
+  decide
+
+example : (Scr.redraw ⟨["app output".toList], "0/3 one line".toList, 12, []⟩ 0 true
+      ["1/3         ".toList, "second line ".toList]).rows =
+      ["app output".toList, "1/3         ".toList, "second line ".toList] := by
+  decide
+
+/-- the whole model on the reproduction (maximum 3, bar width 5, a two-line format, `start`, then
+`set_format` to a one-line format, `advance`): the redraw moves up one line and erases -/
+example :
+    ((runC (mkConfig .ansi false 0 120 0 none none (some 5) none none none (some "%current%/%max%\n[%bar%]".toList))
+      (init 3 64000)
+      [(.op (.start none), 64000), (.set (.format "%current%/%max% done".toList), 64000),
+       (.op (.advance 1), 64016)]).map (fun e => e.res.writes)) =
+      [[['\r'], cursorUp 1, "0/3\n[>----]".toList], [],
+       [['\r'], cursorUp 1, eraseDown, "1/3 done".toList]] := by
+  decide +kernel
+
+/-- ... and with the rule before the repair (`overwriteWith false`) the same redraw neither moves up nor erases -/
+example : (overwriteWith false (mkConfig .ansi false 0 120 0 none none (some 5) none none none none)
+      { (init 3 0) with formatLineCount := 0, displayedLineCount := some 1 } 0 "1/3 done".toList).2 =
+      [['\r'], "1/3 done".toList] := by decide +kernel
 
 end Clikit.Props.C16
